@@ -127,7 +127,7 @@ Definition subs_shape (l : list sub_t) : Prop :=
   end.
 
 Definition wf_callout (c : callout_t) :=
-  lt8 (c_flags c) /\ lt8 (c_prio c) /\ (length (c_loc c) <= 80)%nat /\ Forall (fun x => x < 128) (c_loc c) /\
+  lt8 (c_flags c) /\ lt8 (c_prio c) /\ (length (c_loc c) <= 255)%nat /\ Forall (fun x => x < 128) (c_loc c) /\
   Forall wf_sub (c_subs c) /\ subs_shape (c_subs c) /\
   c_size c = 4 + N.of_nat (length (c_loc c)) + subs_size (c_subs c) /\ lt8 (c_size c).
 
